@@ -168,9 +168,11 @@ def datasets(n, p, rng, tier):
 def check_case(rec, spec, X, repo):
     """Run one (configuration, data) case; record violations; return (ran, number of detections)."""
     n, p = X.shape
-    stage, y, exc, site = oc.attempt(spec, X, X, repo)
+    # the row index rotates over default / shifted / strided integer labels (a deterministic function of the case): positions, not labels, are reported
+    container = ("frame", "frame-shifted", "frame-strided")[(n + p + len(json.dumps(spec, sort_keys=True))) % 3]
+    stage, y, exc, site = oc.attempt(spec, X, X, repo, container)
     det = spec["det"]
-    inp = {"spec": spec, "X": X}
+    inp = {"spec": spec, "X": X, "container": container}
     if exc is not None:
         name = type(exc).__name__
         if name == "RuntimeError" and oc.may_be_not_pd(spec):
